@@ -2087,6 +2087,17 @@ def r_default_dim_table(ctx, f: FunctionInfo, rule="R-KIND", chain=None):
                 continue
             t = N(st.value)
             if not (t[0] == "call" and t[1] == "numpy.array" and t[2] and t[2][0][0] == "list" and len(t[2][0]) == 3 and all(r[0] == "list" and len(r) == 3 for r in t[2][0][1:])):
+                # a SCALAR default (one square root for rows and columns alike) in a function that otherwise keeps separate row and column
+                # dimensions: the scalar branch then divides both totals by the same first dimension -- wrong for rectangular operands
+                scalar_like = (t[0] == "call" and t[1] in ("builtins.int", "builtins.max", "builtins.min", "builtins.round", "numpy.max", "numpy.min", "numpy.round")) or \
+                    (t[0] == "sub" and t[2][0] == "c")
+                rowcol = [x for x in scalar_dim_expansions(f) if isinstance(x[1], tuple) and x[1] and x[1][0] == "rowcol"]
+                if scalar_like and rowcol and "sqrt" in " ".join(unparse(d.value) for d in walk_no_nested(f.node) if isinstance(d, ast.Assign) and
+                                                                isinstance(d.targets[0], ast.Name) and d.targets[0].id in {y.id for y in ast.walk(st.value) if isinstance(y, ast.Name)}):
+                    n_sites += 1
+                    ctx.ob(rule, f, "omitted dim: rows split as (sqrt r, sqrt r), columns as (sqrt c, sqrt c)", False,
+                           f"`{unparse(st)[:70]}` makes the default a single number: the scalar branch then uses it as the first dimension of BOTH the rows and the columns, so a "
+                           "rectangular operand (4 x 16) is split as rows (4, 1) and columns (4, 4) instead of (2, 2) and (4, 4)", st, chain=chain)
                 continue
             rows = [tuple(r[1:]) for r in t[2][0][1:]]
             names = {x[1][1] for r in rows for x in r if x[0] == "sub" and x[1][0] == "n" and x[2][0] == "c"}
@@ -2148,3 +2159,27 @@ def r_index_label_layout(ctx, f: FunctionInfo, rule="R-LAYOUT", chain=None):
                                  "operator permutes the mirrored parties (it is still a permutation matrix, and agrees with the right one for two parties and mirror-symmetric perms)")
             ctx.ob(rule, f, "index-label permutation follows the row-major Kronecker convention", ok, why, c, chain=chain, required=ok is not None)
     return sites
+
+
+# ---------------------------------------------------------------------------------------------
+def r_count_after_expansion(ctx, f: FunctionInfo, rule="R-KIND", chain=None):
+    """The number of subsystems is only known once a scalar `dim` has been expanded to [dim, N/dim] (`num_sys = 2` inside that branch).  A value
+    computed from the provisional count before the expansion (sys % num_sys, range(num_sys), ...) is wrong for the scalar form: with
+    num_sys == 1 every subsystem index collapses to 0."""
+    fix = None
+    for n in walk_no_nested(f.node):
+        if isinstance(n, ast.If):
+            for st in ast.walk(ast.Module(body=n.body, type_ignores=[])):
+                if isinstance(st, ast.Assign) and len(st.targets) == 1 and isinstance(st.targets[0], ast.Name) and st.targets[0].id == "num_sys" \
+                        and isinstance(st.value, ast.Constant) and st.value.value == 2:
+                    fix = n
+    if fix is None:
+        return 0
+    early = [x for x in walk_no_nested(f.node) if isinstance(x, ast.Name) and x.id == "num_sys" and isinstance(x.ctx, ast.Load) and x.lineno < fix.lineno]
+    # uses inside the test of the expanding `if` itself are the recognition of the scalar form
+    early = [x for x in early if not any(y is x for y in ast.walk(fix.test))]
+    ctx.ob(rule, f, "the subsystem count is used only after a scalar dim has been expanded", not early,
+           "no use of `num_sys` ahead of the expansion" if not early else
+           f"`num_sys` is read at line {early[0].lineno}, before the scalar-dim branch (line {fix.lineno}) sets it to 2: for `dim` given as a single number it is still 1 there, "
+           "so anything derived from it (subsystem indices taken modulo the count, ranges over the subsystems) is computed for ONE subsystem", early[0] if early else None, chain=chain)
+    return 1
